@@ -79,6 +79,8 @@ struct Shared {
     held_lookups: Mutex<BTreeMap<u64, usize>>,
     complaints: Mutex<Vec<(String, String)>>,
     evictions: AtomicU64,
+    /// value -> leave notifications seen (any reason).
+    leaves: Mutex<BTreeMap<u64, Vec<u8>>>,
 }
 
 struct Listener {
@@ -91,6 +93,12 @@ impl EventListener for Listener {
     type Value = u64;
 
     fn on_leave(&self, reason: Event, key: &u64, value: &u64) {
+        self.sh.leaves.lock().unwrap().entry(*value).or_default().push(match reason {
+            Event::Evict => 0,
+            Event::Replace => 1,
+            Event::Remove => 2,
+            Event::Clear => 3,
+        });
         if reason == Event::Evict {
             self.sh.evictions.fetch_add(1, Ordering::SeqCst);
             if self.lru {
@@ -332,6 +340,21 @@ fn execute(job: &TJob, ctx: Arc<Mutex<Ctx>>, on_deadlock: sched::DeadlockHandler
             sh.complaints.lock().unwrap().push(("W.usage-eq".into(), format!("after all threads finished usage() = {usage} but entries() = {entries} (unit weights)")));
         }
         drop(cache);
+        // Every admitted entry has left by now (the cache is gone): exactly one notification each.
+        {
+            let leaves = sh.leaves.lock().unwrap();
+            for r in sh.log.lock().unwrap().iter() {
+                if let Obs::Insert { key, val } = r.obs {
+                    let n = leaves.get(&val).map(|v| v.len()).unwrap_or(0);
+                    if n != 1 {
+                        sh.complaints.lock().unwrap().push((
+                            if n == 0 { "L.missing-leave".to_string() } else { "L.twice".to_string() },
+                            format!("value {val} of key {key} (inserted by thread {}) produced {n} leave notifications: {:?}", r.thread, leaves.get(&val)),
+                        ));
+                    }
+                }
+            }
+        }
         panics
     }));
     let summary = sched::end();
@@ -399,6 +422,44 @@ pub fn c18_t() -> TProp {
         jobs: jobs_c18,
         rule: "Engine T (thread part of C18): two- and three-thread programs of lookups (drop / hold), touch, handle drops and evicting inserts / evict_all on one LRU shard (pool ratios 0.9 and 0.5), every interleaving with at most 2 preemptions (3 in the thorough tier for two-thread programs); a listener flags any eviction of an entry while a looked-up handle to it is held; held handles are re-read at the end.",
     }
+}
+
+/// C13 thread part: conservation of leave notifications under concurrency.
+pub fn c13_t() -> TProp {
+    TProp {
+        id: "C13",
+        owned: vec!["L.", "X."],
+        jobs: jobs_c13,
+        rule: "Engine T (thread part of C13): the two-thread programs of C02 (single operations and 2-vs-1 operation programs incl. insert, replace, remove, clear, evict_all on a contended key) on LRU, S3-FIFO and FIFO with capacity 2, every interleaving with at most 2 preemptions; after all threads finished and the cache is dropped every value ever inserted must have produced exactly one leave notification.",
+    }
+}
+
+fn jobs_c13(tier: Tier) -> Vec<TJob> {
+    let mut v = vec![];
+    let algos: Vec<Algo> = if tier == Tier::Quick {
+        vec![Algo::Lru { ratio: 0.9 }, Algo::Fifo]
+    } else {
+        Algo::defaults()
+    };
+    for algo in algos {
+        for (pro, threads) in programs(Tier::Quick) {
+            if !threads.iter().flatten().any(|o| matches!(o, TOp::Ins { .. })) && pro.is_empty() {
+                continue;
+            }
+            if threads.len() >= 3 {
+                continue;
+            }
+            v.push(TJob {
+                algo,
+                shards: 1,
+                capacity: 2,
+                prologue: pro,
+                threads,
+                bound: 2,
+            });
+        }
+    }
+    v
 }
 
 /// C16 thread part: no combination of concurrent operations deadlocks.
